@@ -176,7 +176,9 @@ def run(ctx):
     NAME_SETS = [(b"lists\\dev", b"lists\\prod", b"by\\st"), (b'say "hi"', b'say "bye"', b'q"'), ("ét\u00e9".encode(), "\u20ac".encode(), b"x y"),
                  (b"a\\b", b"ab", b"a\\\\b"), (b"ab", b"a\\b", b"a"), (b"{5}", b"OK", b"NO x"),
                  # names that are parts of each other (old / new inside the bystander's name and the reverse)
-                 (b"vac", b"archive", b"vacation"), (b"a", b"b", b"ab"), (b"vacation", b"vac", b"v"), (b"x", b"xy", b"xyz")]
+                 (b"vac", b"archive", b"vacation"), (b"a", b"b", b"ab"), (b"vacation", b"vac", b"v"), (b"x", b"xy", b"xyz"),
+                 # a server that is lax about names (control characters other than CR, LF, NUL are legal inside a quoted string)
+                 (b"plain", b"my\tscript", b"o\x01ther"), (b"a\x7fb", b"old\x7fcopy", b"x"), (b"tab\there", b"plain", b"\x1f")]
     for (old_, new_, other_), lit in itertools.product(NAME_SETS, (False, "safe")):
         for (o, n, by) in states:
             scripts = {}
@@ -189,6 +191,7 @@ def run(ctx):
             # … the bystander being the active script when neither of the two names is
             active = old_ if o == "active" else (new_ if n == "active" else (other_ if by else None))
             srv = refserver.RefServer(r, scripts=scripts, active=active, version=False, literal_names=lit)
+            srv.lax_names = True
             s = msref.Session()
             g = srv.greeting()
             c_out = s.connect(b"", [], "user", "pw", server=srv)
